@@ -141,10 +141,15 @@ package httpgen
 //@   at-call reflect.Set requires into_the_configured_field: 0 <= _i1 && _i1 < len(params) && arg0 == msg.ProtoReflect().Descriptor().Fields().ByName(protoreflect.Name(params[_i1].FieldName))
 //@   at-call convertStringToFieldValue requires by_the_kind_of_that_field: arg1 == msg.ProtoReflect().Descriptor().Fields().ByName(protoreflect.Name(params[_i1].FieldName)).Kind()
 //@   ensures accepted_means_all_present: verr == nil ==> (forall k int :: 0 <= k && k < len(params) ==> r.PathValue(params[k].URLParam) != "")
+// a rejection carries exactly one violation, and it names the proto field of the offending path variable (C02/C10)
+//@   ensures rejection_names_the_field: verr != nil ==> len(verr.Violations) == 1 && verr.Violations[0] != nil && (exists k int :: 0 <= k && k < len(params) && verr.Violations[0].Field == params[k].FieldName)
 //@   loop 1 invariant forall k int :: 0 <= k && k < _i1 ==> r.PathValue(params[k].URLParam) != ""
 //@ emitted func bindQueryParams(r *nethttp.Request, msg proto.Message, params []QueryParamConfig) (verr *sebufhttp.ValidationError)
 //@   modifies *
 //@   ensures accepted_means_required_present: verr == nil ==> (forall k int :: 0 <= k && k < len(params) && params[k].Required ==> len(r.URL.Query()[params[k].QueryName]) > 0)
+// a rejection carries exactly one violation, and it names the proto field (not the URL name) of the offending query
+// parameter: a required one that is absent, or a present one whose value does not convert (C02/C10)
+//@   ensures rejection_names_the_field: verr != nil ==> len(verr.Violations) == 1 && verr.Violations[0] != nil && (exists k int :: 0 <= k && k < len(params) && verr.Violations[0].Field == params[k].FieldName && ((params[k].Required && len(r.URL.Query()[params[k].QueryName]) == 0) || len(r.URL.Query()[params[k].QueryName]) > 0))
 //@   loop 1 invariant forall k int :: 0 <= k && k < _i1 && params[k].Required ==> len(query[params[k].QueryName]) > 0
 //@   at-call reflect.Set requires converted_value: count("convertStringToFieldValue") > old(count("convertStringToFieldValue")) && lastErrNil("convertStringToFieldValue") && arg1 == lastRetAs("convertStringToFieldValue", protoreflect.Value)
 //@   at-call reflect.Append requires converted_value: count("convertStringToFieldValue") > old(count("convertStringToFieldValue")) && lastErrNil("convertStringToFieldValue") && arg0 == lastRetAs("convertStringToFieldValue", protoreflect.Value)
